@@ -94,6 +94,10 @@ impl Exec {
                 self.misguessed = true;
             }
         }
+        // ... or the id was guessed for another call: what the script pushed "for call b" was in fact for this one
+        if self.guessed.iter().any(|(b, g)| *g == real && *b != abs) {
+            self.misguessed = true;
+        }
         if self.real_of.contains_key(&abs) {
             // one call, two different message-ids on the wire: keep the first, report the second as it is
             return real;
